@@ -272,6 +272,7 @@ class CallMixin:
                     if h is not None: break
                     if c in self.w.classes and name in self.w.classes[c].methods: break
             if h is not None: return h(self, recv, args, kwargs, st)
+            if "$a" in obj: return self.call_value(self.ext["arr_attr"](self, recv, name, st, n), args, kwargs, st, n)
             if "$d" in obj: return self.dict_method(recv, name, args, kwargs, st, n)
             if "$l" in obj: return self.list_method(recv, name, args, kwargs, st, n)
             if name in obj and isinstance(obj[name], (VClosure, VFunc)):    # callable stored in a field
